@@ -13,7 +13,16 @@ POLL_NIL = list("ejsxku")          # pollOffer returns nil
 RELAY_BAD = list("brR")
 ANSWER_FAIL = list("agm")
 FAST_FAIL = POLL_NIL + RELAY_BAD + ["p"] + ANSWER_FAIL
-OPEN = ["o", "A", "+", "O"]        # leave a slot held after the op
+OPEN = ["o", "A", "+", "O"]        # leave a slot held after the op (and Ys: see stays_open)
+# ops Y<x>: what the relay does with the handler's dial (a relay refusing the connection is q)
+RELAYS = {"r": "relay-resets-connection", "e": "relay-closes-without-answer", "h": "relay-answers-http-error",
+          "z": "relay-hangs", "s": "relay-stalls-after-handshake"}
+RELAY_FAST_FAIL = ["Yr", "Ye", "Yh"]
+
+
+def stays_open(op):
+    return op[:1] in OPEN or op == "Ys"
+
 # ops O<x> / Q<x>: the sessions o / q with a client whose offer (or data channel) looks different
 VARIANTS = {"p": "public", "l": "local-only", "n": "no-candidates", "6": "ipv6-only", "m": "mdns-only",
             "u": "unordered-unlabelled-datachannel"}
@@ -33,6 +42,8 @@ def opname(op):
     if op[:1] in "OQ" and len(op) == 2:
         base = OPNAME["o" if op[0] == "O" else "q"]
         return "%s-%s-offer" % (base, VARIANTS.get(op[1], op[1])) if op[1] != "u" else "%s-%s" % (base, VARIANTS["u"])
+    if op[:1] == "Y" and len(op) == 2:
+        return RELAYS.get(op[1], op)
     return OPNAME.get(op[:1], op[:1])
 
 
@@ -71,7 +82,7 @@ def walk(line, impl):
         that never got a handler shows as a leak when its client leaves, and is named after the session"""
         if op[:1] in "cd" and op[1:].isdigit() and made.get(int(op[1:]), "o")[:1] == "O":
             return made[int(op[1:])]
-        return op if op[:1] in "OQ" else op[:1]
+        return op if op[:1] in "OQY" else op[:1]
     waiting = False    # start mode: the loop is parked in tokens.get()
     for i, op in enumerate(ops):
         k = op[0]
@@ -117,7 +128,7 @@ def walk(line, impl):
             at_polls.append(len(held) + 1)
             sid += 1
         else:
-            if k in OPEN:
+            if stays_open(op):
                 held.add(sid)
             made[sid] = op
             sid += 1
@@ -200,9 +211,9 @@ def rand_script(rng, cap, n, allow_slow=False):
             if y < 0.45:
                 k = rng.choice(FAST_FAIL)
             elif y < 0.60:
-                k = "q"
+                k = rng.choice(["q", "q"] + RELAY_FAST_FAIL)
             elif y < 0.68:
-                k = "o"
+                k = rng.choice(["o", "o", "Ys"])
             elif y < 0.80:
                 k = rng.choice(["O", "O", "Q"]) + rng.choice("pln6mu")
             elif y < 0.92:
@@ -212,7 +223,7 @@ def rand_script(rng, cap, n, allow_slow=False):
             if allow_slow and rng.random() < 0.1:
                 k = rng.choice("tTn")
             ops.append(k)
-            if k[0] in OPEN:
+            if stays_open(k):
                 held[sid] = k
             sid += 1
         else:
@@ -272,6 +283,14 @@ def gen(ctx):
         add(cap, "o,c0", "single-open-client-close")
         add(cap, "o,d0", "single-open-relay-close")
         add(cap, "A,c0", "single-answer-fail-after-open")
+        # what the relay does with the dial (the hanging relay, Yz, takes the dialer's 45 s: slow_cases)
+        for k in RELAY_FAST_FAIL:
+            add(cap, k + ",e", "single-" + RELAYS[k[1]])
+        add(cap, "Ys,c0,e", "single-relay-stalls-client-close")
+        add(cap, "Ys,d0,e", "single-relay-stalls-relay-close")
+    # capacity filled by sessions whose relay misbehaves, released, refilled: a slot lost to any of them blocks a get
+    add(2, "Yr,Ys,Ye,c1,Yh,Ys,o,d4,c5,e", "relay-fault-fill-release-refill")
+    add(1, "Ye,Yh,Yr,Ys,c3,Yr,o,c5", "relay-fault-fill-release-refill")
     # the shape of the client's offer / data channel (ops O<x>, Q<x>): a session that reaches an open data channel must
     # get its handler - and give the slot back when the handler ends - whatever webRTCConn.RemoteAddr() makes of the offer
     for j, x in enumerate("pln6mu"):
@@ -319,9 +338,14 @@ def slow_cases(ctx):
              # one session polls three times while the eight served sessions end between its polls
              ("seq 0 " + ",".join(["+"] * 8) + ",w" + eight + "/_,e", "repoll"),
              ("seq 17 " + repoll_script(rng, 14, 2, real=2), "repoll"),
-             ("start 1 e,o,B,c1,u,E", "start"), ("start 2 o,A,B,d0,a,p,E", "start")]
+             ("start 1 e,o,B,c1,u,E", "start"), ("start 2 o,A,B,d0,a,p,E", "start"),
+             # a relay that accepts the connection and never answers the WebSocket handshake: the slot comes back when the
+             # dialer's 45 s handshake timeout fires (the driver waits 45 s + 15 s for it); with capacity 1 the proxy can
+             # then serve the next client
+             ("seq 2 o,Yz,c0,e", "relay-hangs"), ("seq 1 Yz,o,c1,e", "relay-hangs")]
     if ctx.tier == "thorough":
-        cases += [("seq 0 T,T", "timeout-connected"), ("seq 1 T,o,c1,T,e", "timeout-connected"),
+        cases += [("seq 3 Yz,Yz,o,Yr,c2,e", "relay-hangs"), ("seq 0 Ys,Yz,c0,q", "relay-hangs"),
+                  ("seq 0 T,T", "timeout-connected"), ("seq 1 T,o,c1,T,e", "timeout-connected"),
                   ("seq 3 o,T,A,c0,c2,T", "timeout-connected")]
         for _ in range(8):
             base = rng.choice([8, 9, 15, 16, 17, 24, rng.randrange(8, 30)])
@@ -362,7 +386,8 @@ def run(ctx):
     exe = vlib.go_test_build("./proxy/lib")
     os.environ["VERIF_DRIVER"] = "1"
     ctx.trusted += ["scripted broker / relay / pion clients in harness/overlay/proxy/lib/zz_verif_c16_test.go force the exit path named by each op",
-                    "pion, gorilla/websocket, net/http and the Go scheduler are exercised, not modelled"]
+                    "pion, gorilla/websocket, net/http and the Go scheduler are exercised, not modelled",
+                    "relay kinds of the Y<x> ops are raw TCP listeners of the driver (reset / close without answer / HTTP 403 / never answer) and a stalling handler on the test relay; a hanging relay is given 45 s (HandshakeTimeout of websocket.DefaultDialer) + 15 s to release the slot"]
     ctx.assumptions += ["model = coq/Model/Tokens.v + coq/Model/ProxySession.v (hand written; V1 = code with proposed-fixes/C16-release-once.diff)",
                         "one data channel per peer connection; a handler can only start between handing the answer to the broker and pc.Close()",
                         "seq cases call tokens.get(); runSession() as Start does; start cases run SnowflakeProxy.Start itself"]
